@@ -51,6 +51,9 @@ ANN = {
     # annotations that cannot be hashed (metadata held in a dict / a list)
     "annot-dict": ("typing.Annotated[int, {'ge': 0, 'le': 65535}]", {"s": "typing.Annotated[int, {'ge': 0, 'le': 65535}]"}),
     "annot-list": ("typing.Annotated[str, ['a', 'b']]", {"s": "typing.Annotated[str, ['a', 'b']]"}),
+    # typing aliases without parameters
+    "bare-callable": ("typing.Callable", {"s": "typing.Callable"}), "bare-list": ("typing.List", {"s": "typing.List"}), "bare-dict": ("typing.Dict", {"s": "typing.Dict"}),
+    "bare-tuple": ("typing.Tuple", {"s": "typing.Tuple"}),
 }
 
 
